@@ -16,7 +16,7 @@ REPO = os.environ.get("VERIF_REPO", "/repo")
 LEAN = os.path.join(VERIF, "lean")
 EVID = os.environ.get("VERIF_EVIDENCE_DIR", os.path.join(VERIF, "evidence"))   # seeded-mutation runs write elsewhere
 SCRATCH_ROOT = os.environ.get("VERIF_SCRATCH", os.environ.get("TMPDIR_VERIF", "/var/tmp"))
-CACHE = os.path.join(SCRATCH_ROOT, "easel-verif-cache")
+CACHE = os.path.join(SCRATCH_ROOT, "easel-verif-cache-v2")   # v2: pruned by age; older engine copies prune "easel-verif-cache" by count
 NPROC = os.cpu_count() or 4
 
 SAN_FLAGS = ["-O1", "-g", "-ffp-contract=off", "-fno-omit-frame-pointer",
